@@ -9,9 +9,12 @@ affine group law by the correspondence run; see DESIGN.md for the translator tie
 -/
 import RelicVerif.Lemmas.MulAlg
 import RelicVerif.Lemmas.EpFormulas
+import RelicVerif.Lemmas.EpComb
+import RelicVerif.Lemmas.EpSim
 
 namespace Relic.Props.C03
-open Relic.Model Relic.Model.MulAlg
+open Relic.Model Relic.Model.MulAlg Relic.Model.EpMul
+open Relic.Model.EbMul (tabCombs)
 
 variable {G : Type} [AddCommGroup G]
 
@@ -153,6 +156,187 @@ theorem mul_sim_joint_correct (p q : G) (n : Nat) (hn0 : 0 < n) (hp : (n : ℤ) 
     rcases this with rfl | rfl | rfl <;> rfl
   rw [simJoint_spec, hsign j0 hd0, hsign j1 hd1, hv0, hv1, toNat_emod_zsmul p n hn0 hp,
     toNat_emod_zsmul q n hn0 hq]
+
+
+/-! ### comb methods, GLV paths, many-point routines (Model/EpMul.lean; lemmas in Lemmas/EpComb.lean, Lemmas/EpSim.lean) -/
+
+/-- a scalar congruent to k modulo the order acts like k -/
+theorem zsmul_of_dvd_sub (p : G) (n : Nat) (hn : (n : ℤ) • p = 0) (a k : ℤ) (h : (n : ℤ) ∣ a - k) : a • p = k • p := by
+  obtain ⟨q, hq⟩ := h
+  have : a = k + q * n := by linarith
+  rw [this, add_zsmul, mul_zsmul, hn, zsmul_zero, add_zero]
+
+/-- the comb with l = ⌈bits(n)/d⌉ columns covers the order: n < 2^(l·d) -/
+theorem comb_cover (n d : Nat) (hd : 0 < d) : n < 2 ^ (((Rec.bitLen n + d - 1) / d) * d) := by
+  have h1 := Rec.lt_two_pow_bitLen n
+  have h2 := Nat.lt_mul_div_succ (Rec.bitLen n + d - 1) hd
+  rw [Nat.mul_succ, Nat.mul_comm d] at h2
+  exact lt_of_lt_of_le h1 (Nat.pow_le_pow_right (by decide) (by omega))
+
+/-- the sign-magnitude form in which the code carries a sub-scalar -/
+theorem sign_natAbs (a : ℤ) : (if decide (a < 0) then -(a.natAbs : ℤ) else (a.natAbs : ℤ)) = a := by
+  rcases lt_or_ge a 0 with h | h
+  · rw [if_pos (by simpa using h)]; omega
+  · rw [if_neg (by simpa using h)]; omega
+
+theorem sg_natAbs (a : ℤ) : Relic.Lemmas.EpSim.sg (decide (a < 0)) * (a.natAbs : ℤ) = a := by
+  unfold Relic.Lemmas.EpSim.sg
+  rcases lt_or_ge a 0 with h | h
+  · rw [if_pos (by simpa using h)]; omega
+  · rw [if_neg (by simpa using h)]; omega
+
+/-- digits in {-1, 0, 1} are their own signs -/
+theorem map_sign_of_small (l : List ℤ) (hl : ∀ d ∈ l, d.natAbs ≤ 1) : l.map Int.sign = l := by
+  conv_rhs => rw [← List.map_id l]
+  apply List.map_congr_left
+  intro d hdm
+  have := hl d hdm
+  have : d = -1 ∨ d = 0 ∨ d = 1 := by omega
+  rcases this with rfl | rfl | rfl <;> rfl
+
+/-- ep_mul_pre_combs + ep_mul_fix_combs on plain curves (also ep_mul_gen / ep_mul_fix in the pinned configuration): table
+    t[Σ b_j 2^j] = Σ b_j 2^(j·l)·P, scalar reduced modulo n, l columns read from the top.  Every integer k; any l, d with
+    n ≤ 2^(l·d) (`comb_cover`: l = ⌈bits(n)/d⌉ qualifies). -/
+theorem mul_fix_combs_plain_correct (p : G) (n : Nat) (hn0 : 0 < n) (hn : (n : ℤ) • p = 0) (k : ℤ) (l d : Nat) (hl : 0 < l)
+    (hld : n ≤ 2 ^ (l * d)) :
+    mulCombsPlain gops (tabCombs gops p l d) (k % n).toNat l d = k • p := by
+  have h1 : (k % n) < n := Int.emod_lt_of_pos _ (by omega)
+  have h2 := toNat_emod n hn0 k
+  rw [Relic.Lemmas.EpComb.mulCombsPlain_spec p _ l d hl (by omega), toNat_emod_zsmul p n hn0 hn]
+
+/-- bn_rec_glv: for lattice rows that annihilate (1, λ) modulo n the pair (k0, k1) computed from k mod n satisfies
+    k0 + k1·λ ≡ k (mod n), whatever the rounding -/
+theorem rec_glv_congr (n : Nat) (hn0 : 0 < n) (v1 v2 : ℤ × ℤ × ℤ) (lam : ℤ)
+    (h1 : (n : ℤ) ∣ v1.2.1 + v1.2.2 * lam) (h2 : (n : ℤ) ∣ v2.2.1 + v2.2.2 * lam) (k : ℤ) :
+    (n : ℤ) ∣ (recGlv (k % n).toNat n v1 v2).1 + (recGlv (k % n).toNat n v1 v2).2 * lam - k := by
+  have h := Relic.Lemmas.EpComb.recGlv_congr (k % n).toNat n v1 v2 lam h1 h2
+  rw [toNat_emod n hn0 k] at h
+  have : (n : ℤ) ∣ k % n - k := by
+    rw [Int.emod_def]; exact ⟨-(k / n), by ring⟩
+  have h3 := dvd_add h this
+  have e : (recGlv (k % n).toNat n v1 v2).1 + (recGlv (k % n).toNat n v1 v2).2 * lam - k % n + (k % n - k)
+      = (recGlv (k % n).toNat n v1 v2).1 + (recGlv (k % n).toNat n v1 v2).2 * lam - k := by ring
+  rwa [e] at h3
+
+/-- a GLV pair acts like the scalar: ψ(P) = λ•P, n•P = 0, k0 + k1·λ ≡ k (mod n) -/
+theorem glv_pair_zsmul (ψ : G →+ G) (p : G) (n : Nat) (hn : (n : ℤ) • p = 0) (lam : ℤ) (hψ : ψ p = lam • p)
+    (k k0 k1 : ℤ) (hk : (n : ℤ) ∣ k0 + k1 * lam - k) : k0 • p + k1 • ψ p = k • p := by
+  rw [hψ, ← mul_zsmul, ← add_zsmul]
+  exact zsmul_of_dvd_sub p n hn _ k hk
+
+/-- ep_mul_combs_endom (ep_mul_fix_combs / ep_mul_gen on endomorphism curves): the half-length comb read for both sub-scalars,
+    ψ applied to the table entry.  Sub-scalars of at most l·d + 1 bits; the code ignores the sign of a sub-scalar on the
+    top-bit path, hence the hypotheses hs0, hs1 (no sub-scalar of the 256-bit endomorphism curves reaches l·d + 1 bits). -/
+theorem mul_fix_combs_endom_correct (ψ : G →+ G) (p : G) (n : Nat) (hn : (n : ℤ) • p = 0) (lam : ℤ) (hψ : ψ p = lam • p)
+    (k k0 k1 : ℤ) (hk : (n : ℤ) ∣ k0 + k1 * lam - k) (l d : Nat) (hl : 0 < l) (hd : 0 < d)
+    (h0 : k0.natAbs < 2 ^ (l * d + 1)) (h1 : k1.natAbs < 2 ^ (l * d + 1))
+    (hs0 : d * l < Rec.bitLen k0.natAbs → 0 ≤ k0) (hs1 : d * l < Rec.bitLen k1.natAbs → 0 ≤ k1) :
+    mulCombsEndom gops ψ (tabCombs gops p l d) l d k0.natAbs (decide (k0 < 0)) k1.natAbs (decide (k1 < 0)) = k • p := by
+  rw [Relic.Lemmas.EpComb.mulCombsEndom_spec ψ p l d _ _ _ _ hl hd h0 h1
+    (fun h => by have := hs0 h; simp; omega) (fun h => by have := hs1 h; simp; omega),
+    sign_natAbs, sign_natAbs]
+  exact glv_pair_zsmul ψ p n hn lam hψ k k0 k1 hk
+
+/-- ep_mul_pre_combd + ep_mul_fix_combd: two tables (the second holds the first doubled e times), e = ⌈dd/2⌉ iterations, two
+    columns per iteration.  Every integer k. -/
+theorem mul_fix_combd_correct (p : G) (n : Nat) (hn0 : 0 < n) (hn : (n : ℤ) • p = 0) (k : ℤ) (dd e d : Nat) (he : 0 < e)
+    (hle : e ≤ dd) (h2 : dd ≤ 2 * e) (hld : n ≤ 2 ^ (dd * d)) :
+    mulCombd gops (tabCombd gops p dd e d) (k % n).toNat dd e d = k • p := by
+  have h1 : (k % n) < n := Int.emod_lt_of_pos _ (by omega)
+  have h3 := toNat_emod n hn0 k
+  rw [Relic.Lemmas.EpComb.mulCombd_spec p _ dd e d he hle h2 (by omega), toNat_emod_zsmul p n hn0 hn]
+
+/-- ep_mul_glv_imp (ep_mul_lwnaf / ep_mul on endomorphism curves): table of odd multiples of ±P, two interleaved width-w NAFs,
+    ψ of the table entry negated when the signs differ -/
+theorem mul_glv_correct (ψ : G →+ G) (p : G) (n : Nat) (hn : (n : ℤ) • p = 0) (lam : ℤ) (hψ : ψ p = lam • p)
+    (k k0 k1 : ℤ) (hk : (n : ℤ) ∣ k0 + k1 * lam - k) (w : Nat) (hw : 2 ≤ w) (cap : Nat) (n0 n1 : List Int)
+    (h0 : Rec.recNaf cap k0.natAbs w = some n0) (h1 : Rec.recNaf cap k1.natAbs w = some n1) :
+    mulGlv gops ψ p (2 ^ (w - 2)) (decide (k0 < 0)) (decide (k1 < 0)) n0 n1 = k • p := by
+  obtain ⟨hv0, hd0, _⟩ := Rec.recNaf_spec cap _ w hw n0 h0
+  obtain ⟨hv1, hd1, _⟩ := Rec.recNaf_spec cap _ w hw n1 h1
+  rw [Relic.Lemmas.EpSim.mulGlv_spec ψ p _ _ _ n0 n1
+    (fun d hdm => by rw [← two_pow_pred w hw]; exact hd0 d hdm)
+    (fun d hdm => by rw [← two_pow_pred w hw]; exact hd1 d hdm), hv0, hv1, sg_natAbs, sg_natAbs]
+  exact glv_pair_zsmul ψ p n hn lam hψ k k0 k1 hk
+
+/-- ep_mul_sim_endom (ep_mul_sim_inter, ep_mul_sim, ep_mul_sim_gen on endomorphism curves): four interleaved width-w NAFs -/
+theorem mul_sim_endom_correct (ψ : G →+ G) (p q : G) (n : Nat) (hp : (n : ℤ) • p = 0) (hq : (n : ℤ) • q = 0) (lam : ℤ)
+    (hψp : ψ p = lam • p) (hψq : ψ q = lam • q) (k k0 k1 m m0 m1 : ℤ)
+    (hk : (n : ℤ) ∣ k0 + k1 * lam - k) (hm : (n : ℤ) ∣ m0 + m1 * lam - m) (w : Nat) (hw : 2 ≤ w) (cap : Nat)
+    (a0 a1 a2 a3 : List Int)
+    (h0 : Rec.recNaf cap k0.natAbs w = some a0) (h1 : Rec.recNaf cap k1.natAbs w = some a1)
+    (h2 : Rec.recNaf cap m0.natAbs w = some a2) (h3 : Rec.recNaf cap m1.natAbs w = some a3) :
+    simEndom gops ψ (tabOdd gops p (2 ^ (w - 2))) (tabOdd gops q (2 ^ (w - 2)))
+      (decide (k0 < 0)) (decide (k1 < 0)) (decide (m0 < 0)) (decide (m1 < 0)) a0 a1 a2 a3 = k • p + m • q := by
+  obtain ⟨hv0, hd0, _⟩ := Rec.recNaf_spec cap _ w hw a0 h0
+  obtain ⟨hv1, hd1, _⟩ := Rec.recNaf_spec cap _ w hw a1 h1
+  obtain ⟨hv2, hd2, _⟩ := Rec.recNaf_spec cap _ w hw a2 h2
+  obtain ⟨hv3, hd3, _⟩ := Rec.recNaf_spec cap _ w hw a3 h3
+  rw [Relic.Lemmas.EpSim.simEndom_spec ψ p q _ _ _ _ _ a0 a1 a2 a3
+    (fun nf hnf d hdm => by
+      rw [← two_pow_pred w hw]
+      simp only [List.mem_cons, List.not_mem_nil, or_false] at hnf
+      rcases hnf with rfl | rfl | rfl | rfl
+      · exact hd0 d hdm
+      · exact hd1 d hdm
+      · exact hd2 d hdm
+      · exact hd3 d hdm),
+    hv0, hv1, hv2, hv3, sg_natAbs, sg_natAbs, sg_natAbs, sg_natAbs,
+    glv_pair_zsmul ψ p n hp lam hψp k k0 k1 hk, add_assoc, glv_pair_zsmul ψ q n hq lam hψq m m0 m1 hm]
+
+/-- ep_mul_sim_lot_plain: every list of (point, scalar) pairs, scalars of any sign and length (no reduction modulo the order):
+    negative scalars negate the point, binary NAFs interleaved over l ≥ every NAF length iterations.
+    An entry is (P, k, NAF of |k|). -/
+theorem mul_sim_lot_plain_correct (L : List (G × ℤ × List ℤ)) (cap l : Nat)
+    (h : ∀ t ∈ L, Rec.recNaf cap t.2.1.natAbs 2 = some t.2.2 ∧ t.2.2.length ≤ l) :
+    simLotNaf gops (L.map fun t => if t.2.1 < 0 then -t.1 else t.1) (L.map fun t => t.2.2) l
+      = (L.map fun t => t.2.1 • t.1).sum := by
+  rw [Relic.Lemmas.EpSim.simLotNaf_spec _ _ l (by
+    intro nf hnf
+    obtain ⟨t, ht, rfl⟩ := List.mem_map.1 hnf
+    exact (h t ht).2), List.zip_map', List.map_map]
+  congr 1
+  apply List.map_congr_left
+  intro t ht
+  obtain ⟨hv, hd, _⟩ := Rec.recNaf_spec cap _ 2 (le_refl _) _ (h t ht).1
+  simp only [Function.comp]
+  rw [map_sign_of_small _ (fun d hdm => by rcases hd d hdm with h0 | ⟨_, h1⟩ <;> [(subst h0; simp); (simp at h1; omega)]), hv]
+  split
+  · rw [smul_neg, ← neg_zsmul]; congr 1; omega
+  · congr 1; omega
+
+/-- ep_mul_sim_dig: every list of (point, single-digit scalar) pairs -/
+theorem mul_sim_dig_correct (ps : List G) (ks : List Nat) (mx : Nat) (hk : ∀ k ∈ ks, k < 2 ^ mx) :
+    simDig gops ps ks mx = ((ps.zip ks).map fun pk => ((pk.2 : ℕ) : ℤ) • pk.1).sum :=
+  Relic.Lemmas.EpSim.simDig_spec ps ks mx hk
+
+/-- ep_mul_sim_lot_endom, bucket branch (more than ten points): every list of entries (P, k, k0, k1, NAF of k0, NAF of k1) with
+    signed width-w NAFs (the code negates the digit string of a negative sub-scalar), ψ(P) = λ•P, k0 + k1·λ ≡ k (mod n):
+    Σ k•P -/
+theorem mul_sim_lot_bucket_correct (ψ : G →+ G) (n : Nat) (lam : ℤ) (c l : Nat)
+    (L : List (G × ℤ × (ℤ × ℤ) × (List ℤ × List ℤ)))
+    (hP : ∀ t ∈ L, (n : ℤ) • t.1 = 0 ∧ ψ t.1 = lam • t.1 ∧ (n : ℤ) ∣ t.2.2.1.1 + t.2.2.1.2 * lam - t.2.1)
+    (hv : ∀ t ∈ L, Rec.eval 1 t.2.2.2.1 = t.2.2.1.1 ∧ Rec.eval 1 t.2.2.2.2 = t.2.2.1.2)
+    (hd : ∀ t ∈ L, (∀ d ∈ t.2.2.2.1, d = 0 ∨ (d % 2 ≠ 0 ∧ d.natAbs < 2 * c)) ∧ (∀ d ∈ t.2.2.2.2, d = 0 ∨ (d % 2 ≠ 0 ∧ d.natAbs < 2 * c)))
+    (hl : ∀ t ∈ L, t.2.2.2.1.length ≤ l ∧ t.2.2.2.2.length ≤ l) :
+    simLotBucket gops ψ (L.map fun t => t.1) (L.map fun t => t.2.2.2) c l = (L.map fun t => t.2.1 • t.1).sum := by
+  rw [Relic.Lemmas.EpSim.simLotBucket_spec ψ _ _ c l
+    (by intro nf hnf; obtain ⟨t, ht, rfl⟩ := List.mem_map.1 hnf; exact hd t ht)
+    (by intro nf hnf; obtain ⟨t, ht, rfl⟩ := List.mem_map.1 hnf; exact hl t ht), List.zip_map', List.map_map]
+  congr 1
+  apply List.map_congr_left
+  intro t ht
+  obtain ⟨hn, hψ, hk⟩ := hP t ht
+  simp only [Function.comp]
+  rw [(hv t ht).1, (hv t ht).2]
+  exact glv_pair_zsmul ψ t.1 n hn lam hψ _ _ _ hk
+
+/-- hypotheses of the endomorphism theorems are satisfiable: on ℤ/7 with ψ = multiplication by 2 (2² + 2 + 1 = 7) -/
+example : ∃ (ψ : ℤ →+ ℤ), ψ 1 = 2 • (1 : ℤ) := ⟨(2 : ℤ) • AddMonoidHom.id ℤ, by simp⟩
+
+/-- non-vacuity: the comb on the integers, n = 13, l = 2 columns, d = 2 rows -/
+example : mulCombsPlain (gops : Ops ℤ) (tabCombs gops 1 2 2) 11 2 2 = 11 := by decide
+example : mulCombd (gops : Ops ℤ) (tabCombd gops 1 2 1 2) 11 2 1 2 = 11 := by decide
 
 /-- non-vacuity: the loops run on the integers (an additive commutative group) -/
 example : mulSigned (gops : Ops ℤ) (tabOdd gops 1 4) 0 [7, 0, 0, 0, 0, -5] = -153 := by decide
